@@ -1155,3 +1155,26 @@ Theorem shared_verifier_refuted :
    prop_check LTls (RDial 1) Ed25519 [2; 3] h IdMatch (out_hs o) (out_disp o) (out_stamp o) (out_crash o)
    = [2; 3; 4]).
 Proof. vm_compute. auto. Qed.
+
+(* ------------------------------------------------------------------------- *)
+(* 12. earlier connections do not matter                                      *)
+
+(* the identity check of a connection depends on that connection's certificate
+   and announcement only, whoever connected before *)
+Theorem router_history_irrelevant prior s c id :
+  router_accepts_h false prior s c id = router_accepts s c id.
+Proof. reflexivity. Qed.
+
+Theorem router_history_irrelevant_proven prior s c id :
+  router_accepts_h false prior s c id = true ->
+  exists k, key_of_cn s (c_cn c) = Some k /\ declared s c id = Some k.
+Proof. rewrite router_history_irrelevant. apply identity_matches. Qed.
+
+(* NOT /repo: remembering the decoded key per ANNOUNCED identity lets a peer that
+   proves key 2 be taken for key 1 once key 1 has connected genuinely *)
+Theorem key_cache_refuted :
+  let c := honest_cert 2 0 in
+  router_accepts_h true [1] Ed25519 c (IdKey 1) = true /\
+  router_accepts_h false [1] Ed25519 c (IdKey 1) = false /\
+  key_of_cn Ed25519 (c_cn c) = Some 2.
+Proof. vm_compute. auto. Qed.
